@@ -121,6 +121,12 @@ var waitFunc = wait
 // return nil if the timer fires before or at the same time as the context's
 // deadline.  This indicates that the call can be retried.
 func wait(ctx context.Context, delay time.Duration) error {
+	// A context that is already done ends the retry loop even when there is
+	// nothing to wait for: with a zero delay the timer below has always fired.
+	if err := ctx.Err(); err != nil {
+		return err
+	}
+
 	timer := time.NewTimer(delay)
 	defer timer.Stop()
 
